@@ -33,7 +33,9 @@ def impl_main(payload):
         np.random.seed(s)
         random.seed(s)
         kind = r % 4
-        n = rng.choice([4, 6, 7, 10])
+        # tiny populations too: the age/fitness Pareto front is then often larger than the target size, and selection
+        # legitimately hands back more than asked for
+        n = rng.choice([2, 3, 4, 4, 5, 6, 7, 10])
         if kind in (1, 3) and n % 2:
             n += 1
         ev = Evaluation(NanProneFitness(nan_every=rng.choice([0, 3, 5])))
